@@ -21,7 +21,7 @@ RULE = ('queries = generated single-integration SELECT/UNION/CTE/window statemen
         'catalog forms; negative variants counted separately; non-trivial = query with a join, subquery, CTE or set operation; distinct by '
         '(query, catalog form)')
 ASSUMPTIONS = ['sqlite3 reference engine with the integration ATTACHed under its name', 'output column names are compared case-insensitively for aliased and plain-column targets']
-BUDGET = {'quick': (8, 90), 'thorough': (16, 600)}
+BUDGET = {'quick': (8, 270), 'thorough': (16, 1800)}
 
 SHADOW = [
     # table / column aliases that coincide with the integration name, qualified columns, stars
